@@ -333,13 +333,32 @@ def _split_zero_amp(fn):
         return None
 
     def single_assign(stmts):
+        """(key, value) of a branch that is one `V = e` (key 'V') or one `<rows>.append(e)` (key '<rows>.append')"""
         if len(stmts) == 1 and isinstance(stmts[0], ast.Assign) and len(stmts[0].targets) == 1 \
                 and isinstance(stmts[0].targets[0], ast.Name):
             return stmts[0].targets[0].id, stmts[0].value
+        if len(stmts) == 1 and isinstance(stmts[0], ast.Expr) and isinstance(stmts[0].value, ast.Call) \
+                and isinstance(stmts[0].value.func, ast.Attribute) and stmts[0].value.func.attr == 'append' \
+                and isinstance(stmts[0].value.func.value, ast.Name) and len(stmts[0].value.args) == 1 \
+                and not stmts[0].value.keywords:
+            return stmts[0].value.func.value.id + '.append', stmts[0].value.args[0]
         return None
+
+    def divides_by_amp(e):
+        return any(isinstance(n, ast.BinOp) and isinstance(n.op, ast.Div) and _is_name(n.right, 'amp')
+                   for n in ast.walk(e))
 
     def emit(var, nonzero, zero):
         found[0] += 1
+        if var.endswith('.append'):
+            # the two branches append ONE row between them: `if amp == 0: rows.append(e0) else: rows.append(e)`
+            lst = var[:-len('.append')]
+            return [ast.Assign(targets=[ast.Name(id='__ampgen', ctx=ast.Store())], value=nonzero),
+                    ast.Assign(targets=[ast.Name(id='__amp0', ctx=ast.Store())], value=zero),
+                    ast.Assign(targets=[ast.Name(id='__amp0flag', ctx=ast.Store())], value=ast.Constant(value=1)),
+                    ast.Expr(value=ast.Call(func=ast.Attribute(value=ast.Name(id=lst, ctx=ast.Load()), attr='append',
+                                                               ctx=ast.Load()),
+                                            args=[ast.Name(id='__ampgen', ctx=ast.Load())], keywords=[]))]
         return [ast.Assign(targets=[ast.Name(id=var, ctx=ast.Store())], value=nonzero),
                 ast.Assign(targets=[ast.Name(id='__amp0', ctx=ast.Store())], value=zero),
                 ast.Assign(targets=[ast.Name(id='__amp0flag', ctx=ast.Store())], value=ast.Constant(value=1))]
@@ -351,14 +370,16 @@ def _split_zero_amp(fn):
                 a, b = single_assign(st.body), single_assign(st.orelse)
                 if a and b and a[0] == b[0]:
                     z, nz = (a[1], b[1]) if zero_test(st.test) == 'eq' else (b[1], a[1])
-                    out.extend(emit(a[0], nz, z))
-                    continue
+                    if divides_by_amp(nz):        # only the special case of `<model> / amp`
+                        out.extend(emit(a[0], nz, z))
+                        continue
             if isinstance(st, ast.Assign) and len(st.targets) == 1 and isinstance(st.targets[0], ast.Name) \
                     and isinstance(st.value, ast.IfExp) and zero_test(st.value.test):
                 z, nz = (st.value.body, st.value.orelse) if zero_test(st.value.test) == 'eq' \
                     else (st.value.orelse, st.value.body)
-                out.extend(emit(st.targets[0].id, nz, z))
-                continue
+                if divides_by_amp(nz):
+                    out.extend(emit(st.targets[0].id, nz, z))
+                    continue
             for attr in ('body', 'orelse'):
                 if hasattr(st, attr) and isinstance(getattr(st, attr), list):
                     setattr(st, attr, walk(getattr(st, attr)))
